@@ -473,7 +473,7 @@ impl Simulation for C13Sim {
   }
   fn describe(&self) -> Describe {
     Describe {
-      rule: "a case = (generated project with inter-dependent local/global utilities incl. shadowing and references inside any/all inside relational rules, chained transformations, constraints sharing variables, rewriters calling rewriters, randomly generated rule trees, rule tests; 0-8 source files) observed by one canonical launch and 12 further launches, each with a fresh hash seed per simulated thread (getrandom seam), a random permutation of rule dirs / file names / documents per file / top-level sections / keys of utils, transform, constraints / rewriter list, thread count in {1,2,3,4,8} and a seeded schedule. One launch = scan --json=stream, scan -U on a fresh tree, and for every third launch test -U followed by test, half of those as an incremental history (an earlier revision of rules and test files is snapshotted first). Compared: finding multisets, exit status, acceptance, rewritten tree, Applied-N line, test verdicts, snapshot bytes. non-trivial = the launch produced findings; distinct = (world, permutation seed, hash seed, thread count, scheduler trace hash) not seen before".into(),
+      rule: "a case = (generated project with inter-dependent local/global utilities incl. shadowing and references inside any/all inside relational rules, chained transformations, constraints sharing variables, rewriters calling rewriters, rewriters reading matched and transformed variables of the enclosing rule, randomly generated rule trees and global utilities, rule tests; 0-8 source files incl. html with script blocks that spell one language two ways and js/ts template strings declared as css/html documents by `languageInjections`) observed by one canonical launch and 12 further launches, each with a fresh hash seed per simulated thread (getrandom seam), a random permutation of rule dirs / file names / documents per file / top-level sections / keys of utils, transform, constraints / rewriter list, thread count in {1,2,3,4,8} and a seeded schedule. One launch = scan --json=stream, scan -U on a fresh tree, and for every third launch test -U followed by test, half of those as an incremental history (an earlier revision of rules and test files is snapshotted first). Compared: finding multisets, exit status, acceptance, rewritten tree, Applied-N line, test verdicts, snapshot bytes. non-trivial = the launch produced findings; distinct = (world, permutation seed, hash seed, thread count, scheduler trace hash) not seen before".into(),
       assumptions: vec![
         "duplicate rule ids / util ids are never generated (their resolution is legitimately order-defined); record order in the output is never compared".into(),
         "the hash seam controls std RandomState (HashMap/HashSet/DashMap); ahash or other hashers with their own entropy are not used by the crates involved".into(),
